@@ -361,6 +361,12 @@ def b_list(ip, args, kwargs, node):
 
 
 def b_tuple(ip, args, kwargs, node):
+    if args and isinstance(args[0], VSet):
+        # tuple(<symbolic set>): its elements in some order - kept as the identity image of the set
+        import ast as _ast
+        from .interp import Frame
+        from .loops import VMapped
+        return VMapped(args[0], "x", _ast.parse("x", mode="eval").body, Frame(None))
     if args and getattr(args[0], "kind", "") == "mapped":
         if args[0].conds:
             raise Unsupported("tuple() of a filtered generator over a symbolic set")
